@@ -115,6 +115,8 @@ def run(chk):
                                 got_map.setdefault(v_, set()).add("?")
                     else:
                         err_mask |= m_
+        if n_sites and any("?" in v_ for v_ in got_map.values()):
+            n_sites = 0      # the Ok payload is not a variant chosen by branching on the byte: try the table-lookup form
         if n_sites:
             for n, c in OPCODES.items():
                 chk.ob("R1.try_from", tf[0], f"0x{c:X} decodes to the variant with that discriminant", got_map.get(c) == {n}, f"byte 0x{c:X} decodes to {sorted(got_map.get(c, []))}")
@@ -128,6 +130,15 @@ def run(chk):
             d0 = describe(prog, tb, 0)
             ok_or = d0[0] == "call" and d0[1].endswith("Option::<T>::ok_or") and "InvalidOpcode" in str(d0[2][1])
             finds = [c for c in core.desc_calls(d0) if core.re.search(r"Iterator>?::find$", c[1])]
+            if d0[0] == "multi" and len(d0[1]) == 2:
+                # the same chain after `ok_or` was lowered to its match: Ok(<what find returned>) | Err(InvalidOpcode)
+                oks_ = [a for a in d0[1] if a[0] == "variant" and a[2] == "Ok"]
+                errs_ = [a for a in d0[1] if a[0] == "variant" and a[2] == "Err"]
+                if len(oks_) == 1 and len(errs_) == 1:
+                    pay = oks_[0][3][0] if oks_[0][3] else None
+                    from_find = isinstance(pay, tuple) and pay[0] == "field" and pay[2] == 0 and isinstance(pay[1], tuple) and pay[1][0] == "call" and core.re.search(r"Iterator>?::find$", pay[1][1]) is not None
+                    ok_or = from_find and "InvalidOpcode" in str(errs_[0])
+                    finds = [pay[1]] if from_find else []
             tab_ok = clo_ok = False
             if finds:
                 recv, cl = finds[0][2][0], finds[0][2][1]
@@ -261,7 +272,9 @@ def run(chk):
                 over_payload = desc_contains(a0, lambda y: y[0] == "call" and y[1].endswith("iter_mut")) and not [c for c in core.desc_calls(a0) if core.re.search(r"::(skip|rev|step_by|take)$", c[1])]
                 if key_cycled and over_payload:
                     zips.append(blk)
-            xors = [(bi, s_) for bi, blk_ in enumerate(b.blocks) for s_ in blk_["stmts"] if s_.get("rv") and s_["rv"].get("k") == "bin" and s_["rv"].get("op") == "BitXor" and s_["pl"]["p"]]
+            xors = [(bi, s_) for bb_ in [b] + prog.all_closures_of(DEC) for bi, blk_ in enumerate(bb_.blocks) for s_ in blk_["stmts"]
+                    if s_.get("rv") and s_["rv"].get("k") == "bin" and s_["rv"].get("op") == "BitXor" and s_["pl"]["p"]]
+            xors += [(bi, t_) for bb_ in prog.all_closures_of(DEC) for bi, t_ in bb_.calls_to(r"BitXorAssign(<[^>]*>)?>?::bitxor_assign$")]
             # (`*byte ^= key_byte` with a `&u8` right-hand side is the BitXorAssign<&u8> impl, a call)
             xors += [(bi, t_) for bi, t_ in b.calls_to(r"BitXorAssign(<[^>]*>)?>?::bitxor_assign$")]
             cl = zips
